@@ -150,8 +150,10 @@ class TreeInfo(productmd.common.MetadataBase):
         # out must not leave a partially written file behind
         content = six.StringIO()
         self.build_file(parser, content)
+        content = content.getvalue()
+        productmd.common._check_encodable(f, content)
         with productmd.common.open_file_obj(f, "w") as f:
-            f.write(content.getvalue())
+            f.write(content)
 
 
 class Header(productmd.common.Header):
